@@ -14,12 +14,13 @@ from . import rules
 from .items import load, LostAnchor
 from .lex import tokenize, match_close, texts, find_seq, OPEN
 
-DEFAULT_FN_RULES = ("R-log", "R-errmsg", "R-underscore")
+DEFAULT_FN_RULES = ("R-log", "R-errmsg", "R-underscore", "R-ctorfn")
 
 RULE_FUNCS = {
     "R-log": rules.r_log,
     "R-errmsg": rules.r_errmsg,
     "R-underscore": rules.r_underscore,
+    "R-ctorfn": rules.r_ctorfn,
 }
 
 HEADER = """// GENERATED on every run by /verif/vx from the current working tree of /repo. Do not edit.
@@ -85,7 +86,7 @@ class Unit:
     def item(self, file, path, subs=None, attrs="", vis=True, label=None, props=None, keep_attrs=False):
         """copy a struct/enum/const/type definition."""
         if isinstance(path, str):
-            path = [p.strip() for p in path.split("::") if p.strip()]
+            path = [p.strip() for p in path.split(" :: ") if p.strip()]
         src = load(self.repo, file)
         it = src.find(path)
         fired = []
@@ -109,7 +110,8 @@ class Unit:
 
     def fn(self, file, path, spec="", ret=None, subs=None, rules_=DEFAULT_FN_RULES, wrap=None, name=None,
            attrs="", loops=None, props=None, label=None, pre="", post_subs=None, vis=True, canary=True,
-           covers=None, header_subs=None, no_body=False, proof_at_start=""):
+           covers=None, header_subs=None, no_body=False, proof_at_start="", chains=None, closures=None,
+           index_loops=None):
         """copy a function; weave `spec` (requires/ensures/decreases text) between signature and body.
 
         loops: {k: dict(prefix="for l in self.leaders.iter()", iter=None|"it", inv="...", decreases="...")}
@@ -117,7 +119,7 @@ class Unit:
         covers: list of token anchors after which the canary file gets `assert(false)` (reachability)
         """
         if isinstance(path, str):
-            path = [p.strip() for p in path.split("::") if p.strip()]
+            path = [p.strip() for p in path.split(" :: ") if p.strip()]
         src = load(self.repo, file)
         it = src.find(path)
         if it.kind != "fn":
@@ -138,8 +140,14 @@ class Unit:
             if n:
                 fired.append((r, n))
         body = self._apply_subs(body, subs, fired)
+        for ch in chains or ():
+            body = apply_chain(body, ch, fired)
+        for cs in closures or ():
+            body = apply_closure(body, cs, fired)
         if loops:
             body = self._weave_loops(body, loops, fired)
+        for k in sorted(index_loops or {}, reverse=True):
+            body = apply_index_loop(body, k, index_loops[k], fired)
         body = self._apply_subs(body, post_subs, fired)
         if vis:
             header, n = rules.r_vis_item(header)
@@ -297,6 +305,209 @@ class Unit:
             cls = re.search(r"//\s*(A[1-7])\b", ctx)
             out.append("%s %s%s" % (m.group(0).strip(" ("), name, " [" + cls.group(1) + "]" if cls else ""))
         return out
+
+
+def closure_span(toks, i):
+    """toks[i] is the first token of a closure literal (`move`, `|` or `||`).
+    returns (params_lo, params_hi, body_lo, body_hi, braced) as token indices (hi exclusive)."""
+    j = i
+    if toks[j].text == "move":
+        j += 1
+    if toks[j].text == "||":
+        plo = phi = j + 1
+        j += 1
+    elif toks[j].text == "|":
+        plo = j + 1
+        k = j + 1
+        while k < len(toks) and toks[k].text != "|":
+            if toks[k].kind == "punct" and toks[k].text in OPEN:
+                k = match_close(toks, k) + 1
+            else:
+                k += 1
+        phi = k
+        j = k + 1
+    else:
+        raise LostAnchor("not a closure at token %r" % toks[i].text)
+    if toks[j].text == "->":
+        raise LostAnchor("closure already has a return type")
+    if toks[j].kind == "punct" and toks[j].text == "{":
+        e = match_close(toks, j)
+        return plo, phi, j, e + 1, True
+    k = j
+    while k < len(toks):
+        t = toks[k]
+        if t.kind == "punct":
+            if t.text in OPEN:
+                k = match_close(toks, k) + 1
+                continue
+            if t.text in (",", ")", "]", "}", ";"):
+                break
+        k += 1
+    return plo, phi, j, k, False
+
+
+def weave_closure(text, cs):
+    """W-closure (+R-tuplepat): annotate a closure literal with parameter types, a named result and a spec.
+    cs: dict(ty=str|[str], ret="b: bool", spec="requires .. ensures ..", name="verif_p")"""
+    toks = tokenize(text)
+    plo, phi, blo, bhi, braced = closure_span(toks, 0)
+    mv = "move " if toks[0].text == "move" else ""
+    ptext = text[toks[plo].start:toks[phi - 1].end] if phi > plo else ""
+    tys = cs.get("ty", [])
+    if isinstance(tys, str):
+        tys = [tys]
+    # split params on top-level commas
+    params = []
+    if ptext:
+        ptoks = tokenize(ptext)
+        cur = 0
+        k = 0
+        while k < len(ptoks):
+            if ptoks[k].kind == "punct" and ptoks[k].text in OPEN:
+                k = match_close(ptoks, k) + 1
+                continue
+            if ptoks[k].text == ",":
+                params.append(ptext[cur:ptoks[k].start].strip())
+                cur = ptoks[k].end
+            k += 1
+        params.append(ptext[cur:].strip())
+    if len(params) != len(tys):
+        raise LostAnchor("closure %r has %d params, spec gives %d types" % (text[:60], len(params), len(tys)))
+    plist = []
+    lets = []
+    names = []
+    for n, (p, ty) in enumerate(zip(params, tys)):
+        pt = tokenize(p)
+        if len(pt) == 1 and pt[0].kind == "id" and p != "_":
+            nm = p
+        elif p == "_":
+            nm = "_verif_unused%d" % n
+        else:
+            nm = cs.get("name", "verif_p") + (str(n) if n else "")
+            lets.append("let %s = %s;" % (p, nm))
+        names.append(nm)
+        plist.append("%s: %s" % (nm, ty))
+    body = text[toks[blo].start:toks[bhi - 1].end]
+    if braced and not lets:
+        inner = body
+    elif braced:
+        inner = "{ " + " ".join(lets) + " " + body[1:]
+    else:
+        inner = "{ " + " ".join(lets) + (" " if lets else "") + body + " }"
+    spec = cs.get("spec", "")
+    for n, nm in enumerate(names):
+        spec = spec.replace("{p%d}" % n, nm)
+    if names:
+        spec = spec.replace("{p}", names[0])
+    ret = " -> (%s)" % cs["ret"] if cs.get("ret") else ""
+    return "%s|%s|%s %s %s" % (mv, ", ".join(plist), ret, spec.strip(), inner)
+
+
+def apply_chain(body, ch, fired):
+    """R-chain: replace `RECV.m0(..).m1(..)...` by a template call, closures woven (their bodies untouched)."""
+    toks = tokenize(body)
+    recv = texts(tokenize(ch["recv"]))
+    methods = ch["methods"]
+    hits = []
+    for h in find_seq(toks, recv + [".", methods[0]]):
+        if h > 0 and toks[h - 1].text in (".", "::"):
+            continue
+        # walk the chain
+        j = h + len(recv)
+        args = []
+        ok = True
+        for m in methods:
+            if j + 1 >= len(toks) or toks[j].text != "." or toks[j + 1].text != m:
+                ok = False
+                break
+            j += 2
+            if toks[j].text == "::":      # turbofish
+                j += 1
+                from .lex import angle_skip
+                j = angle_skip(toks, j)
+            if toks[j].text != "(":
+                ok = False
+                break
+            e = match_close(toks, j)
+            args.append(body[toks[j].end:toks[e].start].strip())
+            j = e + 1
+        if not ok:
+            continue
+        # chain must end here (next token is not another method call of the same chain kind we did not list)
+        hits.append((h, j, args))
+    cnt = ch.get("count", 1)
+    if len(hits) != cnt:
+        raise LostAnchor("chain %s.%s matches %d times, expected %d" % (ch["recv"], ".".join(methods), len(hits), cnt))
+    edits = []
+    for h, j, args in hits:
+        fmt = dict(recv=ch["recv"])
+        for k, a in enumerate(args):
+            cs = (ch.get("closures") or {}).get(k)
+            fmt["a%d" % k] = weave_closure(a, cs) if cs else a
+        new = ch["template"].format(**fmt)
+        a0, b0 = toks[h].start, toks[j - 1].end
+        seg = body[a0:b0]
+        edits.append((a0, b0, new + "\n" * max(0, seg.count("\n") - new.count("\n"))))
+        fired.append(("R-chain", 1, ch["recv"] + "." + ".".join(methods), ch["template"].split("(")[0]))
+        for k in (ch.get("closures") or {}):
+            fired.append(("W-closure", 1, args[k][:80]))
+    return rules.apply_edits(body, edits)
+
+
+def apply_closure(body, cs, fired):
+    """W-closure on a closure found by its token prefix (cs['prefix']); must match exactly once."""
+    toks = tokenize(body)
+    pre = texts(tokenize(cs["prefix"]))
+    hits = find_seq(toks, pre)
+    if len(hits) != cs.get("count", 1):
+        raise LostAnchor("closure prefix %r matches %d times" % (cs["prefix"], len(hits)))
+    edits = []
+    for h in hits:
+        plo, phi, blo, bhi, braced = closure_span(toks, h)
+        a0, b0 = toks[h].start, toks[bhi - 1].end
+        edits.append((a0, b0, weave_closure(body[a0:b0], cs)))
+        fired.append(("W-closure", 1, cs["prefix"]))
+    return rules.apply_edits(body, edits)
+
+
+def apply_index_loop(body, k, spec, fired):
+    """R-formap / R-forslice / R-forenum: `for PAT in COLL-EXPR { B }` (k-th loop) becomes an indexed while loop
+    `let mut verif_iK = 0; while verif_iK < LEN { let PAT = AT(verif_iK); [let IDX = verif_iK;] verif_iK += 1; B }`.
+    B is untouched. spec: dict(prefix=.., len="self.map.len()", at="self.map.entry_at({i})", pat="(msg, signers)",
+    idx=None|"i", inv=.., decreases=..)"""
+    toks = tokenize(body)
+    loop_idx = [i for i, t in enumerate(toks) if t.kind == "id" and t.text in ("for", "while", "loop")
+                and not (i > 0 and toks[i - 1].text in (".", "::"))]
+    if k >= len(loop_idx):
+        raise LostAnchor("loop #%d not found" % k)
+    i = loop_idx[k]
+    pre = texts(tokenize(spec["prefix"]))
+    if texts(toks[i:i + len(pre)]) != pre:
+        raise LostAnchor("loop #%d header does not start with %r" % (k, spec["prefix"]))
+    j = i + 1
+    while j < len(toks) and not (toks[j].kind == "punct" and toks[j].text == "{"):
+        if toks[j].kind == "punct" and toks[j].text in ("(", "["):
+            j = match_close(toks, j) + 1
+        else:
+            j += 1
+    # header must be exactly the prefix (so the collection expression is the one the spec names)
+    if texts(toks[i:j]) != pre:
+        raise LostAnchor("loop #%d header %r is not exactly %r" % (k, " ".join(texts(toks[i:j])), spec["prefix"]))
+    iv = "verif_i%d" % k
+    head = "let mut %s: usize = 0; while %s < %s" % (iv, iv, spec["len"])
+    ins = ""
+    if spec.get("inv"):
+        ins += "\n    invariant\n" + spec["inv"].replace("{i}", iv).rstrip().rstrip(",") + ",\n"
+    ins += "    decreases %s - %s,\n" % (spec.get("spec_len", spec["len"]), iv)
+    first = " let %s = %s;" % (spec["pat"], spec["at"].replace("{i}", iv))
+    if spec.get("idx"):
+        first += " let %s = %s;" % (spec["idx"], iv)
+    first += " %s += 1;" % iv
+    if spec.get("body_start"):
+        first += " " + spec["body_start"].replace("{i}", iv)
+    edits = [(toks[i].start, toks[j].start, head + ins), (toks[j].end, toks[j].end, first)]
+    fired.append(("R-forindex", 1, spec["prefix"]))
+    return rules.apply_edits(body, edits)
 
 
 def _canary_raw(text):
